@@ -335,7 +335,38 @@ func runC10(w *World, r *Report) {
 
 	// ---------------------------------------------------------------- handoff/inbound (typestate on the CFG)
 	g := w.funcCFG(info, in.Decl.Body)
-	classifyIn := func(n ast.Node, emit func(cfgEvent)) {
+	var classifyIn func(n ast.Node, emit func(cfgEvent))
+	inlineDepth := 0
+	classifyIn = func(n ast.Node, emit func(cfgEvent)) {
+		// a call of a helper of the stream: its channel operations happen here, in the helper's statement order
+		if es, ok := n.(*ast.ExprStmt); ok && inlineDepth < 2 {
+			if c, ok := es.X.(*ast.CallExpr); ok {
+				if fn, ok := typeutil.Callee(info, c).(*types.Func); ok {
+					if hf := w.FuncOf(fn); hf != nil && hf != in && hf.Recv != nil && hf.Recv == in.Recv && hf.Decl.Body != nil {
+						inlineDepth++
+						var walk func(list []ast.Stmt)
+						walk = func(list []ast.Stmt) {
+							for _, st := range list {
+								switch b := st.(type) {
+								case *ast.BlockStmt:
+									walk(b.List)
+								case *ast.IfStmt:
+									walk(b.Body.List)
+									if eb, ok := b.Else.(*ast.BlockStmt); ok {
+										walk(eb.List)
+									}
+								default:
+									classifyIn(st, emit)
+								}
+							}
+						}
+						walk(hf.Decl.Body.List)
+						inlineDepth--
+						return
+					}
+				}
+			}
+		}
 		if s, ok := isSendTo(info, n, so.poolFull); ok {
 			emit(cfgEvent{Kind: "S", Node: n, Obj: identObj(info, s.Value)})
 			return
@@ -378,7 +409,7 @@ func runC10(w *World, r *Report) {
 		*l = append(*l, d)
 	}
 	var errBad []string
-	nExitPaths := 0
+	nExitPaths, nPublishing := 0, 0
 	for _, lp := range lps {
 		for _, p := range lp.Paths {
 			nPaths++
@@ -421,6 +452,9 @@ func runC10(w *World, r *Report) {
 					}
 				}
 				// exit paths start at a loop head: hand-offs of completed earlier frames do not occur on them
+				if seq == "ET" {
+					nPublishing++
+				}
 				switch seq {
 				case "", "ET":
 				default:
@@ -440,6 +474,11 @@ func runC10(w *World, r *Report) {
 	streamParseHandoff(w, r, so)
 
 	// ---------------------------------------------------------------- errpath
+	// a failed read must be published on at least one exit path: silence on every exit would also pass the
+	// per-path test above
+	if nExitPaths > 0 && nPublishing == 0 {
+		errBad = append(errBad, "no path leaving the reader sends on Error and triggers shutdown: a failed read ends the reader silently and the consumer never learns that the stream died")
+	}
 	if len(errBad) == 0 && nExitPaths > 0 {
 		r.OK("errpath", in.Key, "exits", ipos, fmt.Sprintf("%d paths leave the reader: each publishes nothing (closed locally) or exactly one error followed by the shutdown trigger; none hands a buffer over", nExitPaths), true)
 	} else if nExitPaths == 0 {
@@ -464,6 +503,54 @@ func runC10(w *World, r *Report) {
 		{so.poolEmpty, false, map[*FuncInfo]bool{so.inbound: true}, "receivers of the empty pool"},
 		{so.poolEmpty, true, map[*FuncInfo]bool{so.parse: true, npool: true}, "senders on the empty pool"},
 		{so.errorF, true, map[*FuncInfo]bool{so.inbound: true}, "senders on Error"},
+	}
+	// a helper that only functions of a role call (and that is never started as a goroutine) runs on that
+	// role's goroutine: it belongs to the role
+	callers := map[*FuncInfo]map[*FuncInfo]bool{}
+	spawned := map[*FuncInfo]bool{}
+	w.eachModuleFunc(func(fi *FuncInfo) {
+		inf := fi.Pkg.TypesInfo
+		ast.Inspect(fi.Decl.Body, func(m ast.Node) bool {
+			switch x := m.(type) {
+			case *ast.GoStmt:
+				if fn, ok := typeutil.Callee(inf, x.Call).(*types.Func); ok {
+					if cf := w.FuncOf(fn); cf != nil {
+						spawned[cf] = true
+					}
+				}
+			case *ast.CallExpr:
+				if fn, ok := typeutil.Callee(inf, x).(*types.Func); ok {
+					if cf := w.FuncOf(fn); cf != nil {
+						if callers[cf] == nil {
+							callers[cf] = map[*FuncInfo]bool{}
+						}
+						callers[cf][fi] = true
+					}
+				}
+			}
+			return true
+		})
+	})
+	for i := range rolesT {
+		who := rolesT[i].who
+		for changed := true; changed; {
+			changed = false
+			for f, cs := range callers {
+				if who[f] || spawned[f] || len(cs) == 0 {
+					continue
+				}
+				all := true
+				for c := range cs {
+					if !who[c] {
+						all = false
+					}
+				}
+				if all {
+					who[f] = true
+					changed = true
+				}
+			}
+		}
 	}
 	for _, rl := range rolesT {
 		n := 0
@@ -596,6 +683,29 @@ func streamParseHandoff(w *World, r *Report, so *streamObjs) {
 	if bObj == nil {
 		r.Fail(VUndecided, "handoff", pf.Key, "parse", ppos, "the parser does not bind the buffer it receives from the full pool to a variable")
 	} else {
+		// locals that hold (a view of) the buffer's bytes: raw := b.Bytes()
+		views := map[types.Object]bool{}
+		ast.Inspect(pf.Decl.Body, func(n ast.Node) bool {
+			if as, ok := n.(*ast.AssignStmt); ok && len(as.Lhs) == len(as.Rhs) {
+				for i, l := range as.Lhs {
+					if o := identObj(info, l); o != nil && o != bObj && isByteSlice(o.Type()) && usesObj(info, as.Rhs[i], bObj) {
+						views[o] = true
+					}
+				}
+			}
+			return true
+		})
+		usesBuf := func(n ast.Node) bool {
+			if usesObj(info, n, bObj) {
+				return true
+			}
+			for o := range views {
+				if usesObj(info, n, o) {
+					return true
+				}
+			}
+			return false
+		}
 		classifyP := func(n ast.Node, emit func(cfgEvent)) {
 			if as, ok := n.(*ast.AssignStmt); ok && len(as.Rhs) == 1 && chanRecvOf(info, as.Rhs[0], so.poolFull) {
 				emit(cfgEvent{Kind: "R", Node: n})
@@ -624,14 +734,14 @@ func streamParseHandoff(w *World, r *Report, so *streamObjs) {
 					done = true
 					return false
 				}
-				if se.Sel.Name == "Parse" && len(c.Args) == 1 && usesObj(info, c.Args[0], bObj) {
+				if se.Sel.Name == "Parse" && len(c.Args) == 1 && usesBuf(c.Args[0]) {
 					emit(cfgEvent{Kind: "P", Node: n})
 					done = true
 					return false
 				}
 				return true
 			})
-			if !done && usesObj(info, n, bObj) {
+			if !done && usesBuf(n) {
 				emit(cfgEvent{Kind: "U", Node: n})
 			}
 		}
